@@ -66,6 +66,17 @@ func groupObligations(obls []*Obligation) []*oblGroup {
 			g.ok = false
 		}
 	}
+	// reachability covers: one feasible path suffices
+	for _, g := range out {
+		if strings.Contains(g.name, "#V.exit-reachable") || strings.Contains(g.name, "#V.loop-reachable") {
+			g.ok = false
+			for _, o := range g.obls {
+				if o.Status != "unsat" && o.Status != "error" {
+					g.ok = true
+				}
+			}
+		}
+	}
 	return out
 }
 
@@ -487,6 +498,54 @@ func cmdBaseline(args []string) {
 	b, _ := json.MarshalIndent(base, "", " ")
 	os.WriteFile(filepath.Join(verifDir, "baseline", "obligations.json"), b, 0o644)
 	fmt.Printf("baseline written: %d groups discharged, %d not\n", len(groups)-bad, bad)
+}
+
+// axiomConsistency asks every solver whether the declarations/axioms accumulated in w are contradictory
+// (they must NOT be unsat). Returns the names of solvers that answered unsat.
+func axiomConsistency(w *World, dir string) []string {
+	var ds []*Def
+	for _, d := range w.defs {
+		ds = append(ds, d)
+	}
+	sort.Slice(ds, func(i, j int) bool { return ds[i].ord < ds[j].ord })
+	var sb strings.Builder
+	for _, d := range ds {
+		sb.WriteString(d.Text)
+		sb.WriteString("\n")
+	}
+	script := sb.String()
+	// Render adds (assert (not false)); harmless
+	var bad []string
+	for _, sp := range solvers[:3] {
+		r := runSolver(sp, script, dir, "axioms", 20, 1)
+		if r.status == "unsat" {
+			bad = append(bad, sp.name)
+		}
+	}
+	return bad
+}
+
+func cmdAxioms(args []string) {
+	repo := envOr("GOVC_REPO", "/repo")
+	smtDir, _ := os.MkdirTemp("", "govc-smt-")
+	defer os.RemoveAll(smtDir)
+	prog, err := LoadProgram(repo)
+	if err != nil {
+		fmt.Println(err)
+		os.Exit(2)
+	}
+	w := NewWorld()
+	for _, c := range prog.Contracts {
+		if c.Fn != nil {
+			VerifyFunc(w, prog, c.Fn)
+		}
+	}
+	bad := axiomConsistency(w, smtDir)
+	if len(bad) > 0 {
+		fmt.Println("AXIOMS INCONSISTENT according to", bad)
+		os.Exit(1)
+	}
+	fmt.Printf("axioms: %d definition groups, no solver derives false within 20s\n", len(w.defs))
 }
 
 // thoroughExtras: additional work of the thorough tier (bounded stand-ins, runtime contract checking); filled in replay.go.
